@@ -214,6 +214,10 @@ func (f *FrameHeader) readFrom(br *bufio.Reader) (int64, error) {
 		n, err = io.ReadFull(br, f.payload[:n])
 		if err != nil {
 			ReleaseFrame(f.fr)
+			// The caller releases whatever Body() still returns; leaving the
+			// frame there put it in its pool twice.
+			f.fr = nil
+
 			return 0, err
 		}
 
